@@ -66,6 +66,8 @@ pub enum Case {
         #[serde(default)]
         prefixed: bool,
     },
+    /// Several lone-scale conversions as the root expressions of ONE query: each as if it stood alone.
+    Several { query: String, expects: Vec<String>, units: Vec<(String, i32)> },
     /// Offset scale not alone: result must be an error or exactly the interval value.
     NotAlone { query: String, interval: String, shift_examples: Vec<String> },
 }
@@ -206,9 +208,47 @@ fn not_alone() -> impl Strategy<Value = Case> {
         })
 }
 
+/// Two to four conversions in one query, mostly between the same two scales with different magnitudes
+/// (what one conversion leaves behind in the query must not colour the next).
+fn several() -> impl Strategy<Value = Case> {
+    (scale(), scale(), prop::collection::vec((lit(), any::<bool>()), 2..=4)).prop_map(|(a, b, xs)| {
+        let mut parts = Vec::new();
+        let mut expects = Vec::new();
+        let mut units = Vec::new();
+        for (x, reversed) in xs {
+            let (from, to) = if reversed { (&b, &a) } else { (&a, &b) };
+            let k = from.0.to_kelvin(&(&x.value * crate::tool::pow10(from.2 as i64)));
+            let out = to.0.from_kelvin(&k) / crate::tool::pow10(to.2 as i64);
+            parts.push(format!("({} {} to {})", x.text, from.1, to.1));
+            expects.push(rat(&out));
+            units.push((to.0.variant().to_string(), to.2));
+        }
+        Case::Several { query: parts.join(" "), expects, units }
+    })
+}
+
 fn check(c: &Case) -> CaseReport {
     let db = shared_db();
     match c {
+        Case::Several { query, expects, units } => {
+            let rs = match run(db, query) {
+                Ok(r) => r,
+                Err(p) => return CaseReport::fail(query, "panic", json!({"query": query, "panic": p})),
+            };
+            if rs.len() != expects.len() {
+                return CaseReport::fail(query, "result-count", json!({"query": query, "got": results_json(&rs), "expected": expects}));
+            }
+            let v = vocab();
+            for (i, r) in rs.iter().enumerate() {
+                let mut want_unit = Mirror::new();
+                want_unit.insert(v.unit(&units[i].0).key(), (1, units[i].1));
+                match r {
+                    R::Ok(val) if val.unit == want_unit && val.value == parse_rat(&expects[i]) => {}
+                    _ => return CaseReport::fail(query, "conversion-differs-next-to-another-in-one-query", json!({"query": query, "result": i, "got": results_json(&rs), "expected": expects})),
+                }
+            }
+            CaseReport::pass(query, true, vec!["several-conversions-in-one-query"])
+        }
         Case::Chain { query, expect, unit, hops, prefix, prefixed } => {
             let rs = match run(db, query) {
                 Ok(r) => r,
@@ -261,13 +301,14 @@ fn check(c: &Case) -> CaseReport {
 }
 
 pub fn run_check(ctx: &Ctx) {
-    ctx.set_rule("chains `x S0 to S1 ... to Sn` (n <= 4) over K, °C/celsius, °F/fahrenheit with rational magnitudes (incl. absolute zero, -40, huge and tiny): the result must equal the direct conversion by K = C + 273.15, C = (F - 32)*5/9 exactly and carry the last scale alone; and the not-alone class (scale with power -3..3 other than 1, or multiplied/divided by one or two other units, cast to the same shape over another scale): the result must be an error or exactly the interval conversion; non-trivial = chain of >=2 hops or not-alone; distinct by query text");
+    ctx.set_rule("chains `x S0 to S1 ... to Sn` (n <= 4) over K, °C/celsius, °F/fahrenheit with rational magnitudes (incl. absolute zero, -40, huge and tiny): the result must equal the direct conversion by K = C + 273.15, C = (F - 32)*5/9 exactly and carry the last scale alone; two to four such conversions as the root expressions of one query each give what they give alone; and the not-alone class (scale with power -3..3 other than 1, or multiplied/divided by one or two other units, cast to the same shape over another scale): the result must be an error or exactly the interval conversion; non-trivial = chain of >=2 hops or not-alone; distinct by query text");
     ctx.assume("a prefixed degree (m°C, kK, millicelsius) is exactly its power of ten degrees of that scale (C03's prefix rule)");
     let corpus: Vec<(String, Case)> = load_corpus("C09");
     let cases: Vec<Case> = corpus.into_iter().map(|c| c.1).collect();
     ctx.run_list("corpus", &cases, check, |c| to_json(c));
     let n = ctx.tier.pick(150_000u64, 3_000_000);
     ctx.run_gen("chains", chain, n, check, |c| to_json(c));
+    ctx.run_gen("several-in-one-query", several, n / 4, check, |c| to_json(c));
     ctx.run_gen("not-alone", not_alone, n / 2, check, |c| to_json(c));
     ctx.run_gen("not-alone-mixed-shape", mixed_shape, n / 4, check, |c| to_json(c));
     let _ = USpell { factors: vec![], slash: false, star: false, noise: 0, starstar: false };
